@@ -1008,6 +1008,14 @@ def check_allocate_paths(ctx, R, inst, key, tu, f, paths, sz, A, M):
         if wraps:
             continue
         size_note = why
+        if aa is not None and aa.as_int() is None and aa.range(p.bounds)[1] < A:
+            bad = True
+            report(ctx, p, R, inst, 'for n in %s alignedMalloc is asked for the alignment `%s`, which is at most %d on this path, required: the '
+                   'template argument %d - small blocks are not %d-byte aligned (an AlignedVector\'s data() loses its alignment while it is '
+                   'small and regains it when it grows)' % (rng(lo, hi), 'reduced by the loop in front of the call' if
+                   isinstance(aa.as_atom(), tuple) and aa.as_atom()[0] == 'widen' else show_val(aa), int(aa.range(p.bounds)[1]), A, A), e[4],
+                   key + 'alignment-argument-smaller-than-template-argument')
+            continue
         if aa is None or aa.as_int() != A:
             bad = True
             if aa is not None and aa.as_int() is not None:
